@@ -2,6 +2,8 @@ package memo
 
 import (
 	"sync/atomic"
+
+	"github.com/aperturerobotics/util/verifhook"
 )
 
 // MemoizeFunc memoizes the given function.
@@ -11,6 +13,7 @@ func MemoizeFunc[T any](fn func() (T, error)) func() (T, error) {
 	var result T
 	var doneErr error
 	return func() (T, error) {
+		verifhook.Point("memo.enter", done)
 		if !started.Swap(true) {
 			defer close(done)
 			result, doneErr = fn()
